@@ -250,6 +250,21 @@ func (ex *Exec) fire(before bool, kind, name string, c *ssa.CallCommon, args []V
 			case "assume":
 				g := ex.evalBool(a.C.E, ex.st, env)
 				ex.vc.Assume(ex.st.pc, g, "assume at "+at.Anchor)
+			case "havoc":
+				// havoc <lvalue> or havoc <ghostfield>(obj): another goroutine may have changed it
+				if call, ok := a.C.E.(ECall); ok {
+					if id, ok := call.Fun.(EIdent); ok {
+						if gt, isG := ex.specs.GhostFields[id.Name]; isG {
+							r := ex.scalarOf(ex.eval(call.Args[0], ex.st, env).V)
+							srt := specSort(gt, ex)
+							ex.heapGet("ghost<"+id.Name+">", ArrSort(SInt, srt))
+							ex.hStore1("ghost<"+id.Name+">", ArrSort(SInt, srt), r, ex.vc.Fresh("hv."+id.Name, srt))
+							continue
+						}
+					}
+				}
+				p, t := ex.placeOf(a.C.E, ex.st, env)
+				ex.store(p, ex.freshValue("hv", t, ex.st.pc))
 			case "apply":
 				ex.applyLemma(a.C.E, env)
 			case "ghost":
@@ -329,6 +344,11 @@ func (ex *Exec) builtin(b *ssa.Builtin, c *ssa.CallCommon, args []Value, pos tok
 		ex.mapDelete(mt, sc(args[0]), args[1])
 		return TupleV{}
 	case "close":
+		ch := sc(args[0])
+		key := "ghost<closed>"
+		h := ex.heapGet(key, ArrSort(SInt, SBool))
+		ex.vc.Oblige("nopanic", "close of closed or nil channel:"+chanName(c.Args[0]), ex.st.pc, And(Not(Eq(ch, I(0))), Not(Sel(h, ch))), ex.posString(pos))
+		ex.hStore1(key, ArrSort(SInt, SBool), ch, TTrue)
 		ex.fireAnchors("close", chanName(c.Args[0]), args, nil, pos)
 		return TupleV{}
 	case "ssa:deferstack":
